@@ -2,6 +2,7 @@
 //! real channel objects, checked step by step against `model::Model`.
 use super::adapters::{make, Flavour};
 use super::api::*;
+use super::bmodel::BModel;
 use super::model::{FutSt, HSt, Mismatch, Model};
 use serde::{Deserialize, Serialize};
 use std::collections::BTreeSet;
@@ -57,6 +58,9 @@ pub enum Act {
     DropRx(usize),
     /// the task owning handle (is_tx, idx) is scheduled: polls every live future of that handle (and its pending Stream)
     PollTask(bool, usize),
+    /// the futures of handle (is_tx, idx) move to another task: from now on they are polled with a
+    /// different waker, and the new owner polls them before it suspends
+    Migrate(bool, usize),
     DropFut(usize),
 }
 
@@ -89,13 +93,19 @@ struct Task {
     wakes: Arc<CountWaker>,
     /// value of `wakes` when the task last started to run (a later wake makes it runnable again)
     seen: usize,
+    /// the task has just taken over its futures (Migrate): it runs once more whatever happens
+    must_run: bool,
 }
 impl Task {
     fn new() -> Task {
-        Task { wakes: Arc::new(CountWaker(AtomicUsize::new(0))), seen: 0 }
+        Task { wakes: Arc::new(CountWaker(AtomicUsize::new(0))), seen: 0, must_run: false }
     }
     fn woken(&self) -> bool {
-        self.wakes.0.load(Ordering::SeqCst) > self.seen
+        self.must_run || self.wakes.0.load(Ordering::SeqCst) > self.seen
+    }
+    fn start_run(&mut self) {
+        self.seen = self.wakes.0.load(Ordering::SeqCst);
+        self.must_run = false;
     }
 }
 
@@ -109,6 +119,8 @@ pub struct World {
     tx_tasks: Vec<Task>,
     rx_tasks: Vec<Task>,
     pub model: Model,
+    /// broadcast flavour: results are judged by this model; `model` only tracks handle states
+    pub bmodel: Option<BModel>,
     next_id: Id,
     pub log: Vec<(Act, Out)>,
     /// what the last action was (for the stall fingerprint)
@@ -168,6 +180,7 @@ impl World {
                 m.stale_credit = cfg.flavour == Flavour::MpscBounded;
                 m
             },
+            bmodel: if cfg.flavour.is_broadcast() { Some(BModel::new(cfg.cap.unwrap_or(1))) } else { None },
             next_id: 1,
             log: vec![],
             last_kind: "init",
@@ -229,8 +242,8 @@ impl World {
                     continue;
                 }
                 let ok = match op {
-                    Op::Send => self.model.send_nonblocking(i, 1),
-                    Op::SendBatch | Op::SendBatchMut => self.model.send_nonblocking(i, 2),
+                    Op::Send => self.bmodel.as_ref().map(|b| b.send_nonblocking(1)).unwrap_or_else(|| self.model.send_nonblocking(i, 1)),
+                    Op::SendBatch | Op::SendBatchMut => self.bmodel.as_ref().map(|b| b.send_nonblocking(2)).unwrap_or_else(|| self.model.send_nonblocking(i, 2)),
                     Op::SendFut | Op::SendBatchFut => self.n_live_futs() < self.cfg.max_futs,
                     Op::Close | Op::Convert => !has_fut,
                     Op::Clone => self.txs.iter().filter(|x| x.is_some()).count() < self.cfg.max_tx && self.model.tx[i] == HSt::Open,
@@ -258,7 +271,7 @@ impl World {
                     continue;
                 }
                 let ok = match op {
-                    Op::Recv | Op::RecvBatch | Op::RecvBatchMut => self.model.recv_nonblocking(i),
+                    Op::Recv | Op::RecvBatch | Op::RecvBatchMut => self.bmodel.as_ref().map(|b| b.recv_nonblocking(i)).unwrap_or_else(|| self.model.recv_nonblocking(i)),
                     Op::RecvFut | Op::RecvBatchFut => self.n_live_futs() < self.cfg.max_futs,
                     // Stream::poll_next needs `&mut` to the receiver: impossible while a future borrows it
                     Op::PollNext => !has_fut,
@@ -287,6 +300,18 @@ impl World {
         for (i, f) in self.futs.iter().enumerate() {
             if f.fut.is_some() {
                 acts.push(Act::DropFut(i));
+            }
+        }
+        if !self.cfg.slim || self.cfg.prefix_name.contains("pending") {
+            for i in 0..self.txs.len() {
+                if self.txs[i].is_some() && !self.tx_tasks[i].must_run && self.futs.iter().any(|f| f.fut.is_some() && f.pending && f.is_tx && f.handle == i) {
+                    acts.push(Act::Migrate(true, i));
+                }
+            }
+            for i in 0..self.rxs.len() {
+                if self.rxs[i].is_some() && !self.rx_tasks[i].must_run && (self.futs.iter().any(|f| f.fut.is_some() && f.pending && !f.is_tx && f.handle == i) || self.streams[i].pending) {
+                    acts.push(Act::Migrate(false, i));
+                }
             }
         }
         acts
@@ -328,6 +353,7 @@ impl World {
                     Act::Tx(i, op) => opname(op, self.txs.get(i).and_then(|t| t.as_ref()).map(|t| t.is_async()).unwrap_or(false)),
                     Act::Rx(i, op) => opname(op, self.rxs.get(i).and_then(|t| t.as_ref()).map(|t| t.is_async()).unwrap_or(false)),
                     Act::PollTask(..) => "async.poll".to_string(),
+                    Act::Migrate(..) => "migrate".to_string(),
                     Act::DropFut(i) => format!("drop.{}", self.futs[i].kind),
                     Act::DropTx(_) => "drop.sender".into(),
                     Act::DropRx(_) => "drop.receiver".into(),
@@ -351,7 +377,10 @@ impl World {
                         let t = self.txs[i].as_ref().unwrap();
                         let out = if op == Op::TrySend { t.try_send(v) } else { t.send(v) };
                         let consumed = self.cfg.flavour.is_oneshot();
-                        let r = self.model.send1(i, id, &out, op == Op::TrySend, &name);
+                        let r = match self.bmodel.as_mut() {
+                            Some(b) => b.send1(id, &out, op == Op::TrySend, &name),
+                            None => self.model.send1(i, id, &out, op == Op::TrySend, &name),
+                        };
                         if consumed {
                             // oneshot: send(self) consumed the handle
                             self.txs[i] = None;
@@ -369,7 +398,10 @@ impl World {
                             Op::SendBatch => (t.send_batch(vs), 2),
                             _ => (t.send_batch_mut(vs), 3),
                         };
-                        let r = self.model.send_batch(i, &ids, &out, form, &name);
+                        let r = match self.bmodel.as_mut() {
+                            Some(b) => b.send_batch(&ids, &out, &name),
+                            None => self.model.send_batch(i, &ids, &out, form, &name),
+                        };
                         (out, r.map_err(|m| (m, name)))
                     }
                     Op::SendFut => {
@@ -391,6 +423,9 @@ impl World {
                     Op::Close => {
                         let out = self.txs[i].as_ref().unwrap().close();
                         let r = self.model.close_tx(i, &out);
+                        if let Some(b) = self.bmodel.as_mut() {
+                            b.gone_tx(HSt::Closed);
+                        }
                         self.last_kind = "close-sender";
                         (out, r.map_err(|m| (m, name)))
                     }
@@ -417,17 +452,26 @@ impl World {
                 match op {
                     Op::TryRecv => {
                         let out = r.try_recv();
-                        let m = self.model.recv1(i, &out, &Out::RecvEmpty, &name);
+                        let m = match self.bmodel.as_mut() {
+                            Some(b) => b.recv1(i, &out, &Out::RecvEmpty, &name),
+                            None => self.model.recv1(i, &out, &Out::RecvEmpty, &name),
+                        };
                         (out, m.map_err(|m| (m, name)))
                     }
                     Op::Recv => {
                         let out = r.recv();
-                        let m = self.model.recv1(i, &out, &Out::RecvEmpty, &name);
+                        let m = match self.bmodel.as_mut() {
+                            Some(b) => b.recv1(i, &out, &Out::RecvEmpty, &name),
+                            None => self.model.recv1(i, &out, &Out::RecvEmpty, &name),
+                        };
                         (out, m.map_err(|m| (m, name)))
                     }
                     Op::RecvTimeout0 => {
                         let out = r.recv_timeout0();
-                        let m = self.model.recv1(i, &out, &Out::RecvTimeout, &name);
+                        let m = match self.bmodel.as_mut() {
+                            Some(b) => b.recv1(i, &out, &Out::RecvTimeout, &name),
+                            None => self.model.recv1(i, &out, &Out::RecvTimeout, &name),
+                        };
                         (out, m.map_err(|m| (m, name)))
                     }
                     Op::TryRecvBatch | Op::TryRecvBatchMut | Op::RecvBatch | Op::RecvBatchMut => {
@@ -437,7 +481,10 @@ impl World {
                             Op::RecvBatch => r.recv_batch(2),
                             _ => r.recv_batch_mut(2),
                         };
-                        let m = self.model.recv_batch(i, 2, &out, &Out::RecvEmpty, &name);
+                        let m = match self.bmodel.as_mut() {
+                            Some(b) => b.recv_batch(i, 2, &out, &Out::RecvEmpty, &name),
+                            None => self.model.recv_batch(i, 2, &out, &Out::RecvEmpty, &name),
+                        };
                         (out, m.map_err(|m| (m, name)))
                     }
                     Op::RecvFut => {
@@ -456,16 +503,22 @@ impl World {
                         (Out::Unit, Ok(()))
                     }
                     Op::PollNext => {
-                        self.rx_tasks[i].seen = self.rx_tasks[i].wakes.0.load(Ordering::SeqCst);
+                        self.rx_tasks[i].start_run();
                         let w = self.rx_tasks[i].wakes.clone();
                         let out = r.poll_next(&Waker::from(w));
-                        let m = self.model.recv1(i, &out, &Out::Pending, &name);
+                        let m = match self.bmodel.as_mut() {
+                            Some(b) => b.recv1(i, &out, &Out::Pending, &name),
+                            None => self.model.recv1(i, &out, &Out::Pending, &name),
+                        };
                         self.streams[i] = StreamReg { pending: out == Out::Pending };
                         (out, m.map_err(|m| (m, name)))
                     }
                     Op::Close => {
                         let out = r.close();
                         let m = self.model.close_rx(i, &out);
+                        if let Some(b) = self.bmodel.as_mut() {
+                            b.gone_rx(i, HSt::Closed);
+                        }
                         self.last_kind = "close-receiver";
                         self.streams[i].pending = false;
                         (out, m.map_err(|m| (m, name)))
@@ -476,6 +529,9 @@ impl World {
                         self.streams.push(StreamReg::default());
                         self.rx_tasks.push(Task::new());
                         self.model.add_rx();
+                        if let Some(b) = self.bmodel.as_mut() {
+                            b.add_rx_from(i);
+                        }
                         (Out::Unit, Ok(()))
                     }
                     Op::Convert => {
@@ -490,6 +546,9 @@ impl World {
             Act::DropTx(i) => {
                 self.txs[i] = None;
                 self.model.drop_tx(i);
+                if let Some(b) = self.bmodel.as_mut() {
+                    b.gone_tx(HSt::Gone);
+                }
                 self.last_kind = "drop-sender";
                 (Out::Unit, Ok(()))
             }
@@ -497,6 +556,9 @@ impl World {
                 self.rxs[i] = None;
                 self.streams[i] = StreamReg::default();
                 self.model.drop_rx(i);
+                if let Some(b) = self.bmodel.as_mut() {
+                    b.gone_rx(i, HSt::Gone);
+                }
                 self.last_kind = "drop-receiver";
                 (Out::Unit, Ok(()))
             }
@@ -504,14 +566,17 @@ impl World {
                 self.last_kind = "poll";
                 {
                     let t = if is_tx { &mut self.tx_tasks[h] } else { &mut self.rx_tasks[h] };
-                    t.seen = t.wakes.0.load(Ordering::SeqCst);
+                    t.start_run();
                 }
                 if !is_tx && self.streams[h].pending && self.rxs[h].is_some() && !self.live_futs_on(false, h) {
                     let w = self.rx_tasks[h].wakes.clone();
                     let r = self.rxs[h].as_ref().unwrap();
                     let name = opname(Op::PollNext, true);
                     let out = r.poll_next(&Waker::from(w));
-                    let m = self.model.recv1(h, &out, &Out::Pending, &name);
+                    let m = match self.bmodel.as_mut() {
+                        Some(b) => b.recv1(h, &out, &Out::Pending, &name),
+                        None => self.model.recv1(h, &out, &Out::Pending, &name),
+                    };
                     self.streams[h] = StreamReg { pending: out == Out::Pending };
                     self.log.push((a, out.clone()));
                     if let Err(m) = m {
@@ -520,6 +585,13 @@ impl World {
                     return Ok(out);
                 }
                 return self.poll_task_futs(is_tx, h, a);
+            }
+            Act::Migrate(is_tx, h) => {
+                let t = if is_tx { &mut self.tx_tasks[h] } else { &mut self.rx_tasks[h] };
+                *t = Task::new();
+                t.must_run = true;
+                self.last_kind = "migrate";
+                (Out::Unit, Ok(()))
             }
             Act::DropFut(i) => {
                 self.futs[i].fut = None;
@@ -533,7 +605,7 @@ impl World {
                 if self.futs.iter().any(|f| f.fut.is_some() && f.polled && f.is_tx == is_tx && f.handle == h) {
                     {
                         let t = if is_tx { &mut self.tx_tasks[h] } else { &mut self.rx_tasks[h] };
-                        t.seen = t.wakes.0.load(Ordering::SeqCst);
+                        t.start_run();
                     }
                     self.poll_task_futs(is_tx, h, a)?;
                 }
@@ -589,6 +661,21 @@ impl World {
 
     /// len / is_empty / is_full on every live open handle (observation refines the model)
     pub fn observe(&mut self) -> Result<(), Fail> {
+        if self.bmodel.is_some() {
+            let mut lens = vec![];
+            for (i, r) in self.rxs.iter().enumerate() {
+                if let Some(r) = r {
+                    if let Some(l) = r.len() {
+                        lens.push((i, l, if r.is_async() { "receiver.async" } else { "receiver.sync" }));
+                    }
+                }
+            }
+            for (i, l, who) in lens {
+                let res = self.bmodel.as_ref().unwrap().observe_rx_len(i, l, who);
+                res.map_err(|m| self.fail(m, &format!("{}.len", who)))?;
+            }
+            return Ok(());
+        }
         let mut checks: Vec<(String, Option<usize>, Option<bool>, Option<bool>, Option<Option<usize>>)> = vec![];
         for (i, t) in self.txs.iter().enumerate() {
             if let Some(t) = t {
